@@ -397,6 +397,31 @@ def gen_lean(ck, units, by, chain_ok):
     return mods
 
 
+def chain_status(by, log):
+    """structural identity of every chained converter with the composition of its traced parts"""
+    chain_ok = {}
+    for n in (1, 2, 3):
+        inv = copy.deepcopy(by["N%d_invert" % n])
+        for j, (o, p) in list(inv.nodes.items()):
+            if o == "in":
+                inv.nodes[j] = ("in", "g" + p[1:])
+        inv.inputs = ["g" + x[1:] for x in inv.inputs]
+        by2 = dict(by)
+        by2["N%d_invert@g" % n] = inv
+        c2 = copy.deepcopy(by["N%d_cauchy_to_pk2" % n])
+        for j, (o, p) in list(c2.nodes.items()):
+            if o == "in" and p[0] == "f":
+                c2.nodes[j] = ("in", "g" + p[1:])
+        c2.inputs = [("g" + x[1:] if x[0] == "f" else x) for x in c2.inputs]
+        by2["N%d_cauchy_to_pk2@g" % n] = c2
+        for comp, stages in chains_of(n).items():
+            diff = struct23.compare(by2, "N%d_%s" % (n, comp), [("N%d_%s" % (n, s), f) for s, f in stages])
+            chain_ok["N%d_%s" % (n, comp)] = diff is None
+            if diff is not None:
+                log("chain %s N=%d: %s" % (comp, n, diff))
+    return chain_ok
+
+
 PROPS = (["TfelVerif.C23.PropsStress", "TfelVerif.C23.PropsN1"]
          + ["TfelVerif.C23.PropsN2%s" % g for g in N2_GROUPS] + ["TfelVerif.C23.PropsN2Chains"]
          + ["TfelVerif.C23.PropsN3_%s__%s" % p for p in N3_BASE] + ["TfelVerif.C23.PropsN3_" + x for x in CORES3]
@@ -447,27 +472,7 @@ def run(ck):
     missing = [x for x in expected_units if x not in by]
     if missing:
         raise vlib.BuildError("tracer did not produce units %s" % missing[:5], "")
-    # ---- structural identity of the chained converters
-    chain_ok = {}
-    for n in (1, 2, 3):
-        inv = copy.deepcopy(by["N%d_invert" % n])
-        for j, (o, p) in list(inv.nodes.items()):
-            if o == "in":
-                inv.nodes[j] = ("in", "g" + p[1:])
-        inv.inputs = ["g" + x[1:] for x in inv.inputs]
-        by2 = dict(by)
-        by2["N%d_invert@g" % n] = inv
-        c2 = copy.deepcopy(by["N%d_cauchy_to_pk2" % n])
-        for j, (o, p) in list(c2.nodes.items()):
-            if o == "in" and p[0] == "f":
-                c2.nodes[j] = ("in", "g" + p[1:])
-        c2.inputs = [("g" + x[1:] if x[0] == "f" else x) for x in c2.inputs]
-        by2["N%d_cauchy_to_pk2@g" % n] = c2
-        for comp, stages in chains_of(n).items():
-            diff = struct23.compare(by2, "N%d_%s" % (n, comp), [("N%d_%s" % (n, s), f) for s, f in stages])
-            chain_ok["N%d_%s" % (n, comp)] = diff is None
-            if diff is not None:
-                ck.log("chain %s N=%d: %s" % (comp, n, diff))
+    chain_ok = chain_status(by, ck.log)
     # ---- 3. Lean
     genmods = gen_lean(ck, units, by, chain_ok)
     res = ck.lean(genmods + PROPS, PROPS)
